@@ -80,6 +80,16 @@ structure EnumSpec where
 
 open Entry
 
+/-- The implementation's table `tbl` has this entry: the spelling with its dedicated variant, the
+alias on the row of its variant, the wildcard prefix as a wildcard row. -/
+def EntryIn (tbl : Table) : Entry → Prop
+  | .v l s => ∃ r ∈ tbl, r.label = l ∧ r.spelling = bs s ∧ r.wildcard = false
+  | .w l p => ∃ r ∈ tbl, r.label = l ∧ r.spelling = (bs p).dropLast ∧ r.wildcard = true
+  | .a l s => ∃ r ∈ tbl, r.label = l ∧ bs s ∈ r.aliases
+
+instance (tbl : Table) (e : Entry) : Decidable (EntryIn tbl e) := by
+  cases e <;> (unfold EntryIn; infer_instance)
+
 /-- Add an alias to the row of that variant. -/
 def addAlias (label : String) (al : Str) : Table → Table
   | [] => []
